@@ -175,6 +175,22 @@ for i in range(nbase):
                         compare("C04:vector-vs-scalar", "entry %d of %s vs the flat vector call" % (j_w, t8), [f[j_w] for f in f6],
                                 [float(o[j_w]) for o in outs], scales_for(seq, rho, ws[j_w]), tol=1e-13)
 
+# ---------------------------------------------------------------- energy vectors (length 1 and n) against wavelength vectors
+stats["energy_vectors"] = 0
+for nlen in (1, 1, 3, 4):
+    seq_ = pool.nested(rng.randint(0, 2))
+    ws_ = [pool.wavelength(flat_atoms(seq_)) for _ in range(nlen)]
+    es_ = [EF_DOC / w ** 2 for w in ws_]
+    stats["energy_vectors"] += 1
+    for arg in (list(es_), np.array(es_)):
+        a_ = attempt(nsf.neutron_scattering, seq_, density=4.0, energy=arg)
+        b_ = attempt(nsf.neutron_scattering, seq_, density=4.0, wavelength=[float(nsf.neutron_wavelength(e)) for e in es_])
+        fa_, fb_ = (flatten_result(r, True, nlen) if isinstance(r, tuple) else None for r in (a_, b_))
+        t_ = "neutron_scattering(%r, density=4.0, energy=%r)" % (seq_, arg)
+        if fa_ is None or fb_ is None or any(abs(x - y) > 1e-9 * max(abs(x), abs(y), 1e-300) + (1e-7 if j == 2 else 0)
+                                             for j in range(7) for x, y in zip(fa_[j], fb_[j])):
+            fail("C04:energy-vs-wavelength", "%s = %r; with the equivalent wavelength vector %r" % (t_, a_, b_), call=t_)
+
 # ---------------------------------------------------------------- energy= through the package-level functions
 import periodictable as _ptpkg
 stats["package_level_energy"] = 0
